@@ -5,13 +5,11 @@
 //! unexpected but accepted spelling (a duplicated clause, a moved keyword, a
 //! spliced BELIEF or `?t`).
 
-use anda_kip::{Command, parse_kip};
+use anda_kip::Command;
 use serde_json::{Value, json};
-use std::panic::{AssertUnwindSafe, catch_unwind};
 use vcore::{Run, Violation, util};
 use vkip::grammar::{Sentence, foreign_tokens, sentences};
 use vkip::tok::{self, Tok};
-use vkip::walker;
 
 #[derive(Default)]
 struct Tally {
@@ -25,29 +23,31 @@ struct Tally {
 
 fn check(text: &str, tally: &mut Tally) {
     tally.inputs += 1;
-    let Ok(result) = catch_unwind(AssertUnwindSafe(|| parse_kip(text))) else {
+    let Ok(trees) = vkip::entries::accepted_trees(text) else {
         tally.found.push(("C16:panic-in-parser".into(), text.len(), text.to_string(), format!("parser panicked on {text:?}")));
         return;
     };
-    let Ok(command) = result else { return };
-    tally.accepted += 1;
-    let relevant = match &command {
-        Command::Kml(_) => true,
-        Command::Meta(anda_kip::MetaCommand::ExportCapsule(_)) => true,
-        _ => false,
-    };
-    if !relevant {
+    if trees.is_empty() {
         return;
     }
-    tally.accepted_mutations += 1;
-    tally.distinct.push(util::fnv64(text.as_bytes()));
-    for s in walker::forbidden_shapes(&command) {
-        tally.found.push((
-            format!("C16:{}", s.class),
-            text.len(),
-            text.to_string(),
-            format!("parse_kip accepted {text:?} although: {} ({})", s.class, s.detail),
-        ));
+    tally.accepted += 1;
+    let relevant = trees.iter().any(|(_, c)| {
+        matches!(c, Command::Kml(_) | Command::Meta(anda_kip::MetaCommand::ExportCapsule(_)))
+    });
+    if relevant {
+        tally.accepted_mutations += 1;
+        tally.distinct.push(util::fnv64(text.as_bytes()));
+    }
+    // every tree any entry point returns: walker + parser/validator agreement
+    for (entry, tree) in &trees {
+        for s in vkip::entries::tree_findings(entry, tree) {
+            tally.found.push((
+                format!("C16:{}", s.class),
+                text.len(),
+                text.to_string(),
+                format!("{entry} accepted {text:?} although: {} ({})", s.class, s.detail),
+            ));
+        }
     }
 }
 
@@ -172,7 +172,7 @@ fn main() {
     run.rule(&format!(
         "all {n_sentences} KML / EXPORT sentences of the grammar enumerator at recursion depth {depth}, and for each every token \
          deleted, duplicated, swapped with its neighbour, truncated after, replaced by {} of {} foreign tokens{}; every input \
-         through parse_kip, every accepted mutation / export tree through the walker; distinct = distinct accepted mutation texts",
+         through parse_kip, parse_kql, parse_kml and parse_meta; every tree any of them returns goes through the walker and through validate_command (parser/validator agreement); distinct = distinct accepted mutation texts",
         if splice_per_pos == usize::MAX { foreign.len() } else { splice_per_pos },
         foreign.len(),
         if insert { " and each of them inserted before it" } else { " (rotating)" }
